@@ -83,5 +83,14 @@ bool rc_engine_run(const std::function<void(Src&, int size)>& body, uint64_t see
 
 }  // namespace vf
 
+#ifdef VF_FUZZ
+// structure-aware libFuzzer target: the fuzzer's bytes are decoded into picks (FuzzSrc) and drive the same property
+#define VF_HARNESS_MAIN(def_expr)                                                   \
+  extern "C" int LLVMFuzzerTestOneInput(const uint8_t* data, size_t size) {         \
+    static vf::HarnessDef vf_def = (def_expr);                                      \
+    return vf::fuzz_one(vf_def, data, size);                                        \
+  }
+#else
 #define VF_HARNESS_MAIN(def_expr) \
   int main(int argc, char** argv) { return vf::verif_main(argc, argv, (def_expr)); }
+#endif
